@@ -196,7 +196,8 @@ def run(shard: dict, ctx) -> None:
         return
     for i in range(shard["n"]):
         cfg = hdlc_gen.CONFIGS[rng.randrange(4)]
-        stream, sent = make_stream(rng, cfg, ctx, max_frames=8 if i % 20 != 19 else rng.choice((rng.randint(60, 200), rng.randint(400, 700))))
+        stream, sent = make_stream(rng, cfg, ctx, max_frames=8 if i % 20 != 19 else rng.choice((rng.randint(60, 200), rng.randint(400, 700), rng.randint(1100, 1600))),
+                                   small=(i % 20 == 19 and i % 40 == 39))
         specs = [("none",), splits.limit_spec(rng, len(stream)), splits.aligned_spec(stream, 0x7E, rng.choice((1, 2, 3)))]
         if len(stream) > 8000:
             specs.append(("single", rng.randint(1, 40)))  # a tiny first call, then everything else in one huge call
